@@ -38,7 +38,7 @@ Proof.
     + cbn [enc_item1 app onebyte_find length] in *. cbn [Z.eqb]. rewrite IH by (auto; lia). reflexivity.
     + destruct Hit as (Hid & Hlen & H0). destruct (onebyte_hdr_decode i (zlen v) Hid Hlen H0) as (Hnz & Hsh & Hl).
       cbn [enc_item1 app onebyte_find length] in *. cbv zeta. rewrite Hsh, Hl.
-      replace (i * 16 + (zlen v - 1) =? 0) with false by lia.
+      replace (i * 16 + (zlen v - 1) =? 0) with false by lia. replace (i =? 15) with false by lia.
       unfold lookup. cbn [elems find eid].
       destruct (i =? id) eqn:E.
       * rewrite zlen_app. pose proof (zlen_nonneg (enc_items false items)).
@@ -96,6 +96,69 @@ Proof.
   - unfold onebyte_get, buf.
     change (drop 4 (190 :: 222 :: a :: b :: enc_items false items)) with (enc_items false items).
     apply onebyte_find_items; auto. cbn [length]. lia.
+Qed.
+
+(* ---- the reserved id 15 (RFC 8285 4.2: processing of the entire extension MUST terminate there):
+   whatever follows it in the block - [rest] is any byte string, [nib] any length nibble - both
+   walks of the view report the elements in front of it and nothing else ---- *)
+Lemma reserved_byte nib : 0 <= nib < 16 -> (240 + nib =? 0) = false /\ Z.shiftr (240 + nib) 4 = 15.
+Proof.
+  intros H. split; [lia|]. rewrite Z.shiftr_div_pow2 by lia. change (2 ^ 4) with 16.
+  symmetry. apply (Z.div_unique (240 + nib) 16 15 nib); lia.
+Qed.
+
+Lemma onebyte_ids_items_reserved : forall items fuel acc nib rest, Forall wf_item1 items -> 0 <= nib < 16 ->
+  (length (enc_items false items) + length rest + 1 < fuel)%nat ->
+  onebyte_ids fuel (enc_items false items ++ (240 + nib) :: rest) acc = Ok (rev acc ++ map eid (elems items)).
+Proof.
+  induction items as [|it items IH]; intros fuel acc nib rest Hwf Hn Hf; (destruct fuel; [cbn in Hf; lia|]).
+  - destruct (reserved_byte nib Hn) as [Hz Hs]. cbn [enc_items concat map app onebyte_ids]. rewrite Hz. cbv zeta. rewrite Hs.
+    cbn [Z.eqb Pos.eqb]. cbn [elems map]. rewrite app_nil_r. reflexivity.
+  - apply Forall_cons_iff in Hwf as [Hit Hwf]. rewrite enc_items_cons in *. cbv beta iota in *.
+    rewrite app_length in Hf. rewrite <- app_assoc. destruct it as [|id v].
+    + cbn [enc_item1 app onebyte_ids length] in *. cbn [Z.eqb]. rewrite IH by (auto; lia). reflexivity.
+    + destruct Hit as (Hid & Hlen & H0). destruct (onebyte_hdr_decode id (zlen v) Hid Hlen H0) as (Hnz & Hsh & Hl).
+      cbn [enc_item1 app onebyte_ids length] in *. cbv zeta. rewrite Hsh, Hl.
+      replace (id * 16 + (zlen v - 1) =? 0) with false by lia. replace (id =? 15) with false by lia.
+      rewrite drop_app_exact. rewrite IH by (auto; rewrite ?app_length in *; lia).
+      cbn [rev elems map eid]. rewrite <- app_assoc. reflexivity.
+Qed.
+
+Lemma onebyte_find_items_reserved : forall items fuel id nib rest, Forall wf_item1 items -> 1 <= id <= 14 -> 0 <= nib < 16 ->
+  (length (enc_items false items) + length rest + 1 < fuel)%nat ->
+  onebyte_find fuel id (enc_items false items ++ (240 + nib) :: rest) = Ok (lookup (elems items) id).
+Proof.
+  induction items as [|it items IH]; intros fuel id nib rest Hwf Hidq Hn Hf; (destruct fuel; [cbn in Hf; lia|]).
+  - destruct (reserved_byte nib Hn) as [Hz Hs]. cbn [enc_items concat map app onebyte_find]. rewrite Hz. cbv zeta. rewrite Hs.
+    reflexivity.
+  - apply Forall_cons_iff in Hwf as [Hit Hwf]. rewrite enc_items_cons in *. cbv beta iota in *.
+    rewrite app_length in Hf. rewrite <- app_assoc. destruct it as [|i v].
+    + cbn [enc_item1 app onebyte_find length] in *. cbn [Z.eqb]. rewrite IH by (auto; lia). reflexivity.
+    + destruct Hit as (Hid & Hlen & H0). destruct (onebyte_hdr_decode i (zlen v) Hid Hlen H0) as (Hnz & Hsh & Hl).
+      cbn [enc_item1 app onebyte_find length] in *. cbv zeta. rewrite Hsh, Hl.
+      replace (i * 16 + (zlen v - 1) =? 0) with false by lia. replace (i =? 15) with false by lia.
+      unfold lookup. cbn [elems find eid].
+      destruct (i =? id) eqn:E.
+      * rewrite zlen_app. pose proof (zlen_nonneg (enc_items false items ++ (240 + nib) :: rest)).
+        replace (zlen v + zlen (enc_items false items ++ (240 + nib) :: rest) <? zlen v) with false by lia.
+        rewrite take_app_exact. reflexivity.
+      * rewrite drop_app_exact. rewrite IH by (auto; rewrite ?app_length in *; lia). reflexivity.
+Qed.
+
+Theorem onebyte_view_reserved a b items nib rest id : Forall wf_item1 items -> 1 <= id <= 14 -> 0 <= nib < 16 ->
+  let buf := 190 :: 222 :: a :: b :: enc_items false items ++ (240 + nib) :: rest in
+  onebyte_unmarshal buf = Ok buf /\
+  onebyte_get_ids buf = Ok (map eid (elems items)) /\
+  onebyte_get buf id = Ok (lookup (elems items) id).
+Proof.
+  intros Hwf Hid Hn buf. split; [reflexivity|]. split.
+  - unfold onebyte_get_ids, buf. rewrite !zlen_cons. pose proof (zlen_nonneg (enc_items false items ++ (240 + nib) :: rest)).
+    replace (1 + (1 + (1 + (1 + zlen (enc_items false items ++ (240 + nib) :: rest)))) <? 4) with false by lia.
+    change (drop 4 (190 :: 222 :: a :: b :: enc_items false items ++ (240 + nib) :: rest)) with (enc_items false items ++ (240 + nib) :: rest).
+    rewrite onebyte_ids_items_reserved by (auto; cbn [length]; rewrite app_length; cbn [length]; lia). reflexivity.
+  - unfold onebyte_get, buf.
+    change (drop 4 (190 :: 222 :: a :: b :: enc_items false items ++ (240 + nib) :: rest)) with (enc_items false items ++ (240 + nib) :: rest).
+    apply onebyte_find_items_reserved; auto. cbn [length]. rewrite app_length. cbn [length]. lia.
 Qed.
 
 Lemma be16_two_byte ab : 0 <= ab < 16 -> ext_form (be16 16 ab) = profile_two_byte.
